@@ -226,6 +226,37 @@ func extractGroup(repo, root string) error {
 		return fmt.Errorf("untranslated: the version filter of Reader.FetchMessage was not found")
 	}
 
+	// request literals: which Generation field feeds which request field
+	litPairs := func(f *ast.File, recv, fn, typ string) []string {
+		var out []string
+		if fd := funcOf(f, recv, fn); fd != nil {
+			ast.Inspect(fd.Body, func(n ast.Node) bool {
+				if cl, ok := n.(*ast.CompositeLit); ok && sel(cl.Type) == typ {
+					for _, el := range cl.Elts {
+						if kv, ok := el.(*ast.KeyValueExpr); ok {
+							v := sel(kv.Value)
+							if _, plain := kv.Value.(*ast.Ident); plain {
+								v = "·" // a local or parameter: its name is not a fact
+							}
+							out = append(out, fmt.Sprintf("(%q, %q)", sel(kv.Key), v))
+						}
+					}
+				}
+				return true
+			})
+		}
+		sort.Strings(out)
+		return out
+	}
+	commitReq := litPairs(gf, "Generation", "CommitOffsets", "offsetCommitRequestV2")
+	hbReq := litPairs(gf, "Generation", "heartbeatLoop", "heartbeatRequestV0")
+	leaveReq := litPairs(gf, "ConsumerGroup", "leaveGroup", "leaveGroupRequestV0")
+	genLit := litPairs(gf, "ConsumerGroup", "nextGeneration", "Generation")
+	if len(commitReq) == 0 || len(hbReq) == 0 || len(leaveReq) == 0 || len(genLit) == 0 {
+		return fmt.Errorf("untranslated: request literals of CommitOffsets (%d) / heartbeatLoop (%d) / leaveGroup (%d) / Generation literal (%d) not found",
+			len(commitReq), len(hbReq), len(leaveReq), len(genLit))
+	}
+
 	// reader.go NewReader: the ConsumerGroupConfig literal — which ReaderConfig field feeds which ConsumerGroupConfig field
 	var optPairs []string
 	if fd := funcOf(rf, "", "NewReader"); fd != nil {
@@ -255,6 +286,10 @@ func extractGroup(repo, root string) error {
 	fmt.Fprintf(&b, "def closeWaitTest : String × String := (%q, %q)\n", waitOp, waitLit)
 	fmt.Fprintf(&b, "def startLastRoutineTest : String × String := (%q, %q)\n", lastOp, lastLit)
 	fmt.Fprintf(&b, "def startRoutinesIncDec : Nat × Nat := (%d, %d)\n", incs, decs)
+	fmt.Fprintf(&b, "def commitRequestFields : List (String × String) := [%s]\n", strings.Join(commitReq, ", "))
+	fmt.Fprintf(&b, "def heartbeatRequestFields : List (String × String) := [%s]\n", strings.Join(hbReq, ", "))
+	fmt.Fprintf(&b, "def leaveRequestFields : List (String × String) := [%s]\n", strings.Join(leaveReq, ", "))
+	fmt.Fprintf(&b, "def generationLiteral : List (String × String) := [%s]\n", strings.Join(genLit, ", "))
 	fmt.Fprintf(&b, "def fetchVersionFilter : String := %q\n", versionOp)
 	fmt.Fprintf(&b, "def readerGroupOptions : List (String × String) := [%s]\n", strings.Join(optPairs, ", "))
 	b.WriteString("end KV.Gen.Group\n")
